@@ -187,3 +187,14 @@ chk("C18",
     "networkx is library code (components / Dijkstra as parameters validated by correspondence). Known finding: graph and solver "
     "differ for heat consumers, active flow controllers, pressure controllers and circulation-pump supply.",
     "Lean 4 proof over an edge-list model + C04's connectivity model; correspondence; graph-vs-solver search", "8/C18")
+chk("C20",
+    "Lean theorems over the controller arithmetic regenerated from multinet_control.py on every run (conversion factors and the "
+    "control_step expressions of P2G, G2P, gas-to-gas): MW->kg/s and kg/s->MW factors are inverse, power-to-gas followed by "
+    "gas-to-power returns the product of the efficiencies, the written P2G value is scaled load x 1000/(hhv*3600) x efficiency, "
+    "G2P's gas-led and power-led modes are inverse, gas-to-gas conserves energy up to the efficiency (mdot_out*hhv2 = "
+    "eta*mdot_in*hhv1); the multinet convergence flag is the conjunction of the member flags. Tie: generated arithmetic at Float "
+    "vs the real controller objects' control_step, bitwise. Search: multinets (power + two gas nets) with 1-3 controllers, scalar "
+    "and vectorised indices, scalings: written cells, member nets bit-identical to stand-alone runs, convergence reporting with an "
+    "infeasible member.",
+    "pandapower's power flow / control loop and controller ordering are library code; multi-energy time series reuse C13's model.",
+    "Lean 4 proof over translated controller arithmetic; bitwise self-check; coupled-run search", "8/C20")
